@@ -152,7 +152,8 @@ Fixpoint find_loop (dbg be : bool) (ix : unit_index) (id mask hash2 : N) (n : na
 
 (* UnitIndex::find (index.rs:232-256), with the number of probes performed *)
 Definition index_find_probes (dbg be : bool) (ix : unit_index) (id : N) : res (option N * N) :=
-  if ix_slot_count ix =? 0 then Ok (None, 0) else
+  (* `if self.slot_count == 0 || id == 0 { return None; }` — id 0 marks an unused slot (repo 8339644) *)
+  if (ix_slot_count ix =? 0) || (id =? 0) then Ok (None, 0) else
   let* mask := chk_sub 32 dbg (ix_slot_count ix) 1 in
   let hash1 := N.land id mask in
   let hash2 := N.lor (N.land (N.shiftr id 32) mask) 1 in
